@@ -24,6 +24,9 @@ Defaults(w) == (IF CanBeNil(w) THEN {[nil |-> TRUE]} ELSE {})
 \* what the configuration says about w
 Settings(w) == {"absent", "nil"}
                \cup (IF w \in Scalars /\ ~IsIface(w) THEN {"obj-y"} ELSE {})
+               \* a map of interface{} values: a null under a NEW key (nothing is stored for it) next to a stored setting -
+               \* the pre-filled entries are still all unmentioned and all validated
+               \cup (IF w \in Maps /\ IsIface(w) THEN {"null-new"} ELSE {})
                \* (a fixed-size array must be given in full length: a shorter list is the "wrong list length" error)
                \cup (IF w \in (Lists \cup Maps) /\ ~IsIface(w) /\ w \notin {"AIn", "APIn", "APPIn"} THEN {"first"} ELSE {})
 
